@@ -11,6 +11,7 @@ pub fn generate(kind: &str, r: &mut Rng, i: u64) -> Vec<String> {
         "link-close" => link_close(r, i),
         "hostile" => hostile(r, i),
         "wirepeer" => wirepeer(r, i),
+        "fault-idle" => fault_workload(r, 99, None),
         "conn" => conn(r, i, false),
         "conn-cycles" => conn(r, i, true),
         _ => panic!("unknown generator {kind}"),
@@ -963,6 +964,88 @@ fn link_close(r: &mut Rng, _i: u64) -> Vec<String> {
     l.push(format!("release {rn} inf"));
     l.push("dropall".into());
     l.push("settle".into());
+    l.push("end".into());
+    l
+}
+
+/// C06 workloads.  `fault`: (wire, item index, kind) scheduled before the connection is made, so
+/// that cut points inside the handshake are covered as well.  Workload 99 is the idle connection.
+pub fn fault_workload(r: &mut Rng, w: u64, fault: Option<(&str, u64, &str)>) -> Vec<String> {
+    let mut l = vec!["mode fault".to_string()];
+    let ta = *r.pick(&[1000u64, 1000, 2000]);
+    let tb = *r.pick(&[1000u64, 1500]);
+    l.push(format!("cfg A chunk=8 buf=16 maxdata=64 timeout={ta} sq=2 tq=2 rq=2"));
+    l.push(format!("cfg B chunk=8 buf=16 maxdata=64 timeout={tb} sq=2 tq=2 rq=2"));
+    if let Some((wire, at, kind)) = fault {
+        l.push(format!("wire {wire} faultafter={at} kind={kind}"));
+        if kind == "stallboth" {
+            let other = if wire == "A" { "B" } else { "A" };
+            l.push(format!("wire {other} faultafter={at} kind=stall"));
+        }
+    }
+    l.push("start".into());
+    if w == 99 {
+        // idle but healthy: nothing but pings for a long time, then traffic still works
+        l.push("connect c1 A p1".into());
+        l.push("accept a1 B p1".into());
+        l.push("settle".into());
+        l.push(format!("advance {}", 1000 * ta.max(tb)));
+        l.push("send s1 A p1 0102030405".into());
+        l.push("recvmsg r1 B p1".into());
+        l.push("settle".into());
+        l.push(format!("advance {}", 37 * ta));
+        l.push("send s2 B p1 0a0b".into());
+        l.push("recvmsg r2 A p1".into());
+        l.push("settle".into());
+        l.push("expect-alive".into());
+        l.push("dropall".into());
+        l.push("settle".into());
+        l.push("end".into());
+        return l;
+    }
+    l.push("connect c1 A p1".into());
+    l.push("accept a1 B p1".into());
+    l.push("settle".into());
+    if w % 2 == 0 {
+        l.push("connect c2 B p2".into());
+        l.push("accept a2 A p2".into());
+        l.push("settle".into());
+    }
+    // traffic, including a chunked message larger than the receive buffer
+    let n1 = 20 + (w * 7) % 30;
+    l.push(format!("send s1 A p1 {}", payload(r, n1 as usize)));
+    l.push("recvmsg r1 B p1".into());
+    l.push("settle".into());
+    if w % 2 == 0 {
+        l.push(format!("send s2 B p2 {}", payload(r, 5)));
+        l.push("recvmsg r2 A p2".into());
+        l.push("settle".into());
+    }
+    if w % 3 == 0 {
+        l.push("pconnect pc A p1 n=1 wait=1".into());
+        l.push("recvmsg rq B p1".into());
+        l.push("settle".into());
+    }
+    if w % 3 == 1 {
+        l.push(format!("chunks s3 A p1 {},{} end=finish", payload(r, 9), payload(r, 12)));
+        l.push("recvmsg r3 B p1".into());
+        l.push("settle".into());
+    }
+    // operations that are pending when the fault strikes (or stay pending on a healthy connection)
+    l.push("connect c3 A p3 wait=1".into());
+    l.push("accept a4 A p4".into());
+    l.push("recvmsg r5 A p1".into());
+    l.push("closed cl6 A p1".into());
+    l.push(format!("send s7 B p1 {}", payload(r, 40)));
+    l.push("settle".into());
+    l.push(format!("advance {}", 3 * ta.max(tb)));
+    // operations started after the fault
+    l.push("send s9 A p1 01".into());
+    l.push("recvmsg r9 B p1".into());
+    l.push("connect c9 B p9 wait=1".into());
+    l.push("accept a9 B p9b".into());
+    l.push("settle".into());
+    l.push(format!("advance {}", 3 * (ta + tb)));
     l.push("end".into());
     l
 }
